@@ -98,4 +98,36 @@ theorem bytePollsSt_eq_calls (step : LinkSt → ByteItem → LinkSt × Option Ou
               obtain ⟨zo, zn, zs⟩ := z
               cases zo <;> cases zn <;> simp
 
+/-! ## CAN -/
+
+def canCalls : RxSt → List CanItem → List (Out × Nat × RxSt) × RxSt
+  | st, [] => ([], st)
+  | st, .frame c :: s =>
+    (match rxFrame st (fromCan c) with
+      | (st', some e) => let r := canCalls st' s; ((.emit e, s.length, st') :: r.1, r.2)
+      | (st', none) => canCalls st' s)
+  | st, .wouldBlock :: s => let r := canCalls st s; ((.nothing, s.length, st) :: r.1, r.2)
+  | st, .overrun :: s => let r := canCalls st s; ((.nothing, s.length, st) :: r.1, r.2)
+
+def shiftLeftCan (k : Nat) (l : List (Out × Nat × RxSt)) : List (Out × Nat × RxSt) :=
+  l.map fun x => (x.1, x.2.1 + k, x.2.2)
+
+/-- no look-ahead on CAN: the calls returning while the frames `s` are consumed do not depend on what follows -/
+theorem canCalls_append (st : RxSt) (s t : List CanItem) :
+    canCalls st (s ++ t) =
+      (shiftLeftCan t.length (canCalls st s).1 ++ (canCalls (canCalls st s).2 t).1, (canCalls (canCalls st s).2 t).2) := by
+  induction s generalizing st with
+  | nil => simp [canCalls, shiftLeftCan]
+  | cons it s ih =>
+    cases it with
+    | frame c =>
+      simp only [List.cons_append, canCalls]
+      cases hrx : rxFrame st (fromCan c) with
+      | mk st' o =>
+        cases o with
+        | none => exact ih st'
+        | some e => simp [ih st', shiftLeftCan, Nat.add_comm]
+    | wouldBlock => simp [canCalls, ih st, shiftLeftCan, Nat.add_comm]
+    | overrun => simp [canCalls, ih st, shiftLeftCan, Nat.add_comm]
+
 end Ross
